@@ -508,6 +508,52 @@ func runC07(c *harness.Case) {
 			}
 		}
 	}
+	// one more execution per chunk: the compaction's own scan meets a single transient iterator error at a PRNG-drawn
+	// step (the scanner retries that partition after its 1 s backoff); whatever the retry does, it must know as much
+	// about the key it was in the middle of as the first attempt did
+	{
+		s := buildC07(c, kind, h)
+		if s == nil {
+			return
+		}
+		recs, derr := harness.Dump(s.eng.KV, coderC.EncodeObjectKey([]byte(harness.Prefix+"/"), 0), coderC.EncodeObjectKey(backend.PrefixEnd([]byte(harness.Prefix+"/")), 0))
+		if derr == nil && len(recs) > 1 {
+			N := 1 + c.Rng.Intn(len(recs))
+			what := fmt.Sprintf("one transient iterator error at step %d of a compaction scan (%d engine records)", N, len(recs))
+			wit := witFor(s, what)
+			var fired int32
+			s.w.IterFault = func(start, end []byte, k int) error {
+				if k == N && atomic.CompareAndSwapInt32(&fired, 0, 1) {
+					return errors.New("injected transient iterator error")
+				}
+				return nil
+			}
+			_, _ = s.n.B.Compact(harness.Ctx, s.R)
+			s.w.IterFault = nil
+			good := s.reads(c, s.n, h, "after Compact with "+what, wit)
+			if good {
+				if _, err := s.n.B.Compact(harness.Ctx, s.R); err != nil {
+					c.Violatef("C07 compact-error", wit(), "clean Compact(%d) after %s: error %v", s.R, what, err)
+					good = false
+				}
+			}
+			if good {
+				good = s.reads(c, s.n, h, "after "+what+" and a second, clean Compact", wit)
+			}
+			if good {
+				good = s.writesAfter(c, s.n, h, c.Rng, wit)
+			}
+			if atomic.LoadInt32(&fired) == 1 {
+				c.Stat("compactions_with_a_transient_iterator_error", 1)
+				c.AddExecution(fmt.Sprintf("h%d/iterator-error/%d", hIdx, N))
+			}
+			if !good {
+				s.close()
+				return
+			}
+		}
+		s.close()
+	}
 	if c.Index < c07Chunks {
 		var ops []string
 		for _, op := range h.ops {
